@@ -41,6 +41,8 @@ def main():
                 core.leanchecker(ctx, mod.LEAN_MODULES)
         core.build_harness(ctx)
         if ctx.harness:
+            import suites
+            suites.run_suite(ctx, 'surface', suites.surface_worlds())
             mod.run(ctx)
         rc = finish(ctx, mod)
     except Exception:
